@@ -1247,6 +1247,68 @@ theorem mem_dropPtr {s : State} (h : Mem s) (hfr0 : s.frames = []) (ho : s.optr 
   · intro b hb; simp only [ho] at hb; cases hb
   · intro _; exact hoc
 
+/-- the storage's own block is deleted while no frame lives in it (a growth whose `operator new` failed): an empty,
+usable storage remains -/
+theorem mem_dropOwn {s : State} (h : Mem s) (hpriv : ∀ f ∈ s.frames, f.priv = true)
+    (hpol : s.cfg.pol = Policy.reusable ∨ s.cfg.pol = Policy.mtsafe) (x b : Bool)
+    (hbz : s.cfg.pol = Policy.mtsafe → b = false) :
+    Mem { s with heap := s.heap.delOpt s.ptr, ptr := none, cap := 0, vsize := 0, busy := b, ok := x } := by
+  cases hp : s.ptr with
+  | none =>
+    refine ⟨h.once, ?_, ?_, h.excl, h.priv_heap, ?_, ?_, ?_, Nat.le_refl _, ?_, h.optr_live, h.optr_none⟩
+    · intro b; have := h.noleak b; simp only [hp] at this; simpa [Heap.delOpt] using this
+    · intro f hf; exact Fits.mono (s := s) rfl (fun _ _ => Nat.le_refl _) (fun _ _ _ hm => hm) (h.fits f hf)
+    · intro f hf hq; rw [hpriv f hf] at hq; cases hq
+    · intro b hb; cases hb
+    · intro _; rfl
+    · intro hmt; simp only [] at hmt ⊢
+      rw [hbz hmt]
+      constructor
+      · intro e; cases e
+      · rintro ⟨f, hf, hq⟩; rw [hpriv f hf] at hq; cases hq
+  | some p =>
+    obtain ⟨c1, c2, c3, c4⟩ := h.ptr_count hp
+    have c5 := h.optr_count_ptr hp
+    simp only [Heap.delOpt]
+    refine ⟨?_, ?_, ?_, h.excl, h.priv_heap, ?_, ?_, ?_, Nat.le_refl _, ?_, ?_, h.optr_none⟩
+    · intro b
+      have h1 := h.once b
+      simp only [Heap.ids_del, Heap.del_dels, Heap.del_next, List.count_append, List.count_cons, List.count_nil,
+        beq_iff_eq, count_filter_ne]
+      by_cases hbp : b = p
+      · subst hbp; simp only [if_true]; rw [if_pos c4]; omega
+      · have : ¬ p = b := fun e => hbp e.symm
+        simp only [hbp, this, if_false]
+        count_omega h1
+    · intro b
+      have h1 := h.noleak b
+      by_cases hbp : b = p
+      · subst hbp
+        generalize s.optr.toList.count b = oc at c5 ⊢
+        simp only [Heap.ids_del, count_filter_ne, Option.toList, List.count_nil, if_true]; omega
+      · have : ¬ p = b := fun e => hbp e.symm
+        generalize s.optr.toList.count b = oc at h1 ⊢
+        simp only [hp, Option.toList, List.count_cons, List.count_nil, beq_iff_eq, this, if_false] at h1
+        simp only [Heap.ids_del, count_filter_ne, Option.toList, List.count_nil, hbp, if_false]
+        omega
+    · intro f hf
+      refine Fits.mono (s := s) rfl (fun _ _ => Nat.le_refl _) ?_ (h.fits f hf)
+      intro b n hb hm
+      exact mem_live_del hm (fun e => h.priv_ne_ptr hp hf (hpriv f hf) (by rw [hb, e]))
+    · intro f hf hq; rw [hpriv f hf] at hq; cases hq
+    · intro b hb; cases hb
+    · intro _; rfl
+    · intro hmt; simp only [] at hmt ⊢
+      rw [hbz hmt]
+      constructor
+      · intro e; cases e
+      · rintro ⟨f, hf, hq⟩; rw [hpriv f hf] at hq; cases hq
+    · intro q hq
+      apply mem_live_del (h.optr_live q hq)
+      intro e
+      rw [hq] at c5
+      simp [e] at c5
+
 theorem inv_stepDestroy {s : State} (h : Inv s) (hok : (stepDestroy s).1.ok = true) : Inv (stepDestroy s).1 := by
   unfold stepDestroy at hok ⊢
   have hfr0 : s.frames = [] := by
@@ -1291,7 +1353,8 @@ theorem inv_stepSwapobj {s : State} (h : Inv s) (hok : (stepSwapobj s).1.ok = tr
 theorem rsAlloc_cfg (s : State) (n : Nat) : (rsAlloc s n).cfg = s.cfg := by
   unfold rsAlloc; split <;> rfl
 
-theorem step_cfg0 (s : State) (op : Op) (hop : ∀ k sz, op ≠ Op.allocThrow k sz) : (step s op).1.cfg = s.cfg := by
+theorem step_cfg0 (s : State) (op : Op) (hop : ∀ k sz, op ≠ Op.allocThrow k sz ∧ op ≠ Op.allocFail k sz) :
+    (step s op).1.cfg = s.cfg := by
   cases op with
   | alloc k sz =>
     simp only [step, stepAlloc]
@@ -1325,27 +1388,72 @@ theorem step_cfg0 (s : State) (op : Op) (hop : ∀ k sz, op ≠ Op.allocThrow k 
   | destroy => rfl
   | moveOut => simp only [step, stepMoveOut]; split <;> rfl
   | swapobj => simp only [step, stepSwapobj]; split <;> rfl
-  | allocThrow k sz => exact absurd rfl (hop k sz)
+  | allocThrow k sz => exact absurd rfl (hop k sz).1
+  | allocFail k sz => exact absurd rfl (hop k sz).2
+
+/-- how a request with a failing `operator new` ends -/
+theorem allocFail_cases (s : State) (k sz : Nat) :
+    stepAllocFail s k sz = stepAlloc s k sz ∨ stepAllocFail s k sz = (s, Res.failed) ∨
+    (s.cfg.pol = Policy.reusable ∧ need s.cfg sz > s.cap ∧ stepAllocFail s k sz =
+      ({ s with heap := s.heap.delOpt s.ptr, ptr := none, cap := 0, vsize := 0, ok := s.ok && s.frames.isEmpty }, Res.failed)) ∨
+    (s.cfg.pol = Policy.mtsafe ∧ s.busy = false ∧ need s.cfg sz > s.cap ∧ stepAllocFail s k sz =
+      ({ s with heap := s.heap.delOpt s.ptr, ptr := none, cap := 0, vsize := 0, busy := false }, Res.failed)) := by
+  unfold stepAllocFail
+  split
+  · exact Or.inr (Or.inl rfl)
+  · rename_i hp
+    split
+    · rename_i hg; exact Or.inr (Or.inr (Or.inl ⟨hp, hg, rfl⟩))
+    · exact Or.inl rfl
+  · rename_i hp
+    split
+    · exact Or.inr (Or.inl rfl)
+    · rename_i hb
+      split
+      · rename_i hg
+        have hb' : s.busy = false := by cases hx : s.busy <;> simp_all
+        exact Or.inr (Or.inr (Or.inr ⟨hp, hb', hg, rfl⟩))
+      · exact Or.inl rfl
+  · split
+    · exact Or.inl rfl
+    · split
+      · exact Or.inl rfl
+      · exact Or.inr (Or.inl rfl)
+  · exact Or.inl rfl
+  · split
+    · exact Or.inr (Or.inl rfl)
+    · exact Or.inl rfl
+  · split
+    · exact Or.inl rfl
+    · split
+      · exact Or.inl rfl
+      · exact Or.inr (Or.inl rfl)
 
 theorem step_cfg (s : State) (op : Op) : (step s op).1.cfg = s.cfg := by
   cases op with
   | allocThrow k sz =>
-    have h1 : (stepAlloc s k sz).1.cfg = s.cfg := step_cfg0 s (Op.alloc k sz) (fun _ _ e => by cases e)
+    have h1 : (stepAlloc s k sz).1.cfg = s.cfg := step_cfg0 s (Op.alloc k sz) (fun _ _ => ⟨(fun e => by cases e), (fun e => by cases e)⟩)
     simp only [step, stepAllocThrow]
     split
     · rename_i id blk hres
       show (stepFree (stepAlloc s k sz).1 id).1.cfg = s.cfg
       have h2 : (stepFree (stepAlloc s k sz).1 id).1.cfg = (stepAlloc s k sz).1.cfg :=
-        step_cfg0 _ (Op.free id) (fun _ _ e => by cases e)
+        step_cfg0 _ (Op.free id) (fun _ _ => ⟨(fun e => by cases e), (fun e => by cases e)⟩)
       rw [h2, h1]
     · exact h1
-  | alloc k sz => exact step_cfg0 s _ (fun _ _ e => by cases e)
-  | free id => exact step_cfg0 s _ (fun _ _ e => by cases e)
-  | newobj => exact step_cfg0 s _ (fun _ _ e => by cases e)
-  | bufset n => exact step_cfg0 s _ (fun _ _ e => by cases e)
-  | destroy => exact step_cfg0 s _ (fun _ _ e => by cases e)
-  | moveOut => exact step_cfg0 s _ (fun _ _ e => by cases e)
-  | swapobj => exact step_cfg0 s _ (fun _ _ e => by cases e)
+  | alloc k sz => exact step_cfg0 s _ (fun _ _ => ⟨(fun e => by cases e), (fun e => by cases e)⟩)
+  | free id => exact step_cfg0 s _ (fun _ _ => ⟨(fun e => by cases e), (fun e => by cases e)⟩)
+  | newobj => exact step_cfg0 s _ (fun _ _ => ⟨(fun e => by cases e), (fun e => by cases e)⟩)
+  | bufset n => exact step_cfg0 s _ (fun _ _ => ⟨(fun e => by cases e), (fun e => by cases e)⟩)
+  | destroy => exact step_cfg0 s _ (fun _ _ => ⟨(fun e => by cases e), (fun e => by cases e)⟩)
+  | moveOut => exact step_cfg0 s _ (fun _ _ => ⟨(fun e => by cases e), (fun e => by cases e)⟩)
+  | swapobj => exact step_cfg0 s _ (fun _ _ => ⟨(fun e => by cases e), (fun e => by cases e)⟩)
+  | allocFail k sz =>
+    have h1 : (stepAlloc s k sz).1.cfg = s.cfg :=
+      step_cfg0 s (Op.alloc k sz) (fun _ _ => ⟨(fun e => by cases e), (fun e => by cases e)⟩)
+    show (stepAllocFail s k sz).1.cfg = s.cfg
+    rcases allocFail_cases s k sz with e | e | ⟨_, _, e⟩ | ⟨_, _, _, e⟩ <;> rw [e]
+    · exact h1
 
 theorem stepAlloc_ok_mono (s : State) (k sz : Nat) (hok : (stepAlloc s k sz).1.ok = true) : s.ok = true := by
   simp only [stepAlloc] at hok
@@ -1426,6 +1534,14 @@ theorem step_ok_mono (s : State) (op : Op) (hok : (step s op).1.ok = true) : s.o
     · rename_i id blk hres
       exact stepAlloc_ok_mono s k sz (stepFree_ok_mono _ id hok)
     · exact stepAlloc_ok_mono s k sz hok
+  | allocFail k sz =>
+    have hok' : (stepAllocFail s k sz).1.ok = true := hok
+    rcases allocFail_cases s k sz with e | e | ⟨_, _, e⟩ | ⟨_, _, _, e⟩ <;> rw [e] at hok'
+    · exact stepAlloc_ok_mono s k sz hok'
+    · exact hok'
+    · have : (s.ok && s.frames.isEmpty) = true := hok'
+      simp only [Bool.and_eq_true] at this; exact this.1
+    · exact hok'
 
 macro "fin_tac" : tactic => `(tactic| (refine ⟨?_, ?_, ?_, ?_, ?_⟩ <;> first | rfl | trivial | exact ⟨_, rfl⟩))
 
@@ -1543,7 +1659,29 @@ theorem inv_stepAllocThrow {s : State} (hc : CfgOK s.cfg) (h : Inv s) (k sz : Na
   | obj a b => simp only [hres] at hok ⊢; exact inv_stepAlloc hc h k sz hok
   | unit => simp only [hres] at hok ⊢; exact inv_stepAlloc hc h k sz hok
   | rejected => simp only [hres] at hok ⊢; exact inv_stepAlloc hc h k sz hok
+  | failed => simp only [hres] at hok ⊢; exact inv_stepAlloc hc h k sz hok
   | bad => simp only [hres] at hok ⊢; exact inv_stepAlloc hc h k sz hok
+
+theorem inv_stepAllocFail {s : State} (hc : CfgOK s.cfg) (h : Inv s) (k sz : Nat)
+    (hok : (stepAllocFail s k sz).1.ok = true) : Inv (stepAllocFail s k sz).1 := by
+  rcases allocFail_cases s k sz with e | e | ⟨hp, _, e⟩ | ⟨hp, hb, _, e⟩ <;> rw [e] at hok ⊢
+  · exact inv_stepAlloc hc h k sz hok
+  · exact h
+  · have hfr0 : s.frames = [] := by
+      have : (s.ok && s.frames.isEmpty) = true := hok
+      simp only [Bool.and_eq_true, List.isEmpty_iff] at this
+      exact this.2
+    refine ⟨⟨h.book.fid_lt, h.book.born_once, h.book.life, h.book.inv_last⟩, ?_⟩
+    exact mem_dropOwn h.mem (by intro f hf; rw [hfr0] at hf; cases hf) (Or.inl hp) (s.ok && s.frames.isEmpty) s.busy
+      (fun hmt => by rw [hp] at hmt; cases hmt)
+  · have hpriv : ∀ f ∈ s.frames, f.priv = true := by
+      intro f hf
+      cases hq : f.priv with
+      | true => rfl
+      | false =>
+        have := (h.mem.busy_iff hp).mpr ⟨f, hf, hq⟩
+        rw [hb] at this; cases this
+    exact ⟨⟨h.book.fid_lt, h.book.born_once, h.book.life, h.book.inv_last⟩, mem_dropOwn h.mem hpriv (Or.inr hp) s.ok false (fun _ => rfl)⟩
 
 theorem inv_step {s : State} (hc : CfgOK s.cfg) (h : Inv s) (op : Op) (hok : (step s op).1.ok = true) : Inv (step s op).1 := by
   cases op with
@@ -1555,6 +1693,7 @@ theorem inv_step {s : State} (hc : CfgOK s.cfg) (h : Inv s) (op : Op) (hok : (st
   | moveOut => exact inv_stepMoveOut h
   | swapobj => exact inv_stepSwapobj h hok
   | allocThrow k sz => exact inv_stepAllocThrow hc h k sz hok
+  | allocFail k sz => exact inv_stepAllocFail hc h k sz hok
 
 theorem run_ok_mono (s : State) (ops : List Op) (hok : (run s ops).ok = true) : s.ok = true := by
   induction ops generalizing s with
@@ -1628,7 +1767,7 @@ theorem alloc_capBytes_ge (s : State) (hc : CfgOK s.cfg) (hv : s.vsize ≤ s.cap
 theorem capBytes_addFrame (s : State) (b : Blk) (sz : Nat) (p : Bool) : capBytes (addFrame s b sz p) = capBytes s := rfl
 
 theorem capBytes_mono_step (s : State) (hc : CfgOK s.cfg) (hv : s.vsize ≤ s.cap) (op : Op)
-    (hd : op ≠ Op.destroy ∧ op ≠ Op.swapobj ∧ ∀ k sz, op ≠ Op.allocThrow k sz) :
+    (hd : op ≠ Op.destroy ∧ op ≠ Op.swapobj ∧ ∀ k sz, op ≠ Op.allocThrow k sz ∧ op ≠ Op.allocFail k sz) :
     capBytes s ≤ capBytes (step s op).1 := by
   cases op with
   | alloc k sz =>
@@ -1681,7 +1820,8 @@ theorem capBytes_mono_step (s : State) (hc : CfgOK s.cfg) (hv : s.vsize ≤ s.ca
   | destroy => exact absurd rfl hd.1
   | moveOut => simp only [step, stepMoveOut]; split <;> exact Nat.le_refl _
   | swapobj => exact absurd rfl hd.2.1
-  | allocThrow k sz => exact absurd rfl (hd.2.2 k sz)
+  | allocThrow k sz => exact absurd rfl (hd.2.2 k sz).1
+  | allocFail k sz => exact absurd rfl (hd.2.2 k sz).2
 
 /-- a request that fits into the storage's own (free) block causes no heap call -/
 theorem alloc_no_heap (s : State) (hc : CfgOK s.cfg) (hr : Reusing s.cfg.pol)
